@@ -46,7 +46,7 @@ Lemma wrote_false_step a o h k :
 Proof.
   intros Hh He Hwt Hw.
   destruct o as [l|h0 k0 v|h0 k0|h0 k0|h0|h0|h0| | |]; cbn [astep ends writes_through] in *; try exact Hw.
-  - destruct (N.eqb k0 0); [exact Hw|]. destruct (areader a h0); [apply wrote_false_awrite; assumption | exact Hw].
+  - destruct (areader a h0); [|exact Hw]. destruct (N.eqb k0 0); [exact Hw | apply wrote_false_awrite; assumption].
   - destruct (areader a h0); [apply wrote_false_awrite; assumption | exact Hw].
   - destruct (areader a h0); exact Hw.
   - destruct (areader a h0); exact Hw.
